@@ -27,9 +27,28 @@ var raceTier = os.Getenv("VERIF_RACE") != ""
 // to the call stack.
 func connLocked(sc *SimConn) bool {
 	if sc != nil && sc.owner != nil && !raceTier {
-		return smtp.VerifConnLocked(sc.owner)
+		return heldByCaller(sc.owner)
 	}
 	return underConnLock()
+}
+
+// heldByCaller tells whether the Conn's mutex is held by the calling goroutine.
+// The mutex can only be probed for "held by somebody"; but nobody keeps it
+// across a blocking point (that is what is being policed), so a holder other
+// than the caller - the command loop inside reset() while a delivery goroutine
+// asks, Server.Close preempted in the middle of Conn.Close - lets go of it as
+// soon as it gets the processor. Held after many yields means held by us.
+func heldByCaller(c *smtp.Conn) bool {
+	if !smtp.VerifConnLocked(c) {
+		return false
+	}
+	for i := 0; i < 200; i++ {
+		runtime.Gosched()
+		if !smtp.VerifConnLocked(c) {
+			return false
+		}
+	}
+	return true
 }
 
 func underConnLock() bool {
